@@ -12,7 +12,7 @@ VEC_MUT_DENY = re.compile(r'Vec::(insert|remove|swap_remove|truncate|clear|drain
 
 def push_table(chk, F, rule, cfg):
     """R14.2: decision table of <MockAssembler as Sink>::push — and of every other function that registers patterns"""
-    main = F.method('assemble::MockAssembler', 'push', 'clause::term::Sink')
+    main = F.method('assemble::MockAssembler', 'push', 'clause::term::Sink', optional=True)
     writers = set()
     for fn in F.fns.values():
         for p_ in ([fn] + fn.promoted):
@@ -23,7 +23,9 @@ def push_table(chk, F, rule, cfg):
                         # the receiver is (a reborrow of) the fn_mockers field: resolve through the body's ref assignments
                         if pl is not None and _refers_to_field(p_, pl, 'assemble::MockAssembler', 'fn_mockers'):
                             writers.add(fn.root if fn.kind in ('closure',) else fn.defp)
-    chk.ob(rule, 'the assembler\'s Sink::push registers patterns', main.defp in writers, config=cfg, fn=main, site='writers', unrecognised=True, what='Sink::push does not touch fn_mockers', found=sorted(writers))
+    # (Sink::push may be the trait's provided method forwarding to another registration function: what matters is that every
+    #  function that touches the method table obeys the registration table)
+    chk.ob(rule, 'some function of the assembler registers patterns', bool(writers) and (main is None or main.defp in writers), config=cfg, fn=main, site='writers', unrecognised=True, what='no function touches fn_mockers', found=sorted(writers))
     for w in sorted(writers):
         _push_table_one(chk, F, rule, cfg, F.fns[w])
     return main, None
